@@ -13,6 +13,14 @@ PROPS = {
                 gen_items=["advanceLocal", "advance", "check", "prodAvail", "workAvail", "consAvail", "nextChunk", "nextChunkMut", "wiring", "skeletons"],
                 trusted=SEQ_TRUST,
                 explanation="FIFO refinement theorem over the generated kernel + differential correspondence (profile fifo)."),
+    "C02": dict(module="MRB.Props.C02", level="proof", profiles=[], engines=["conc"], gen_items=["concAcc", "wiring", "skeletons"],
+                trusted=["release/acquire fragment of C11 in view-based operational form (exact for single-writer locations)", "slot contents as one global memory, justified by the race-freedom theorem",
+                         "disciplined clients: producer writes before moving on, worker applies f once per item, consumer reads before moving on"]),
+    "C03": dict(module="MRB.Props.C03", level="proof", profiles=[], engines=["conc"], gen_items=["concAcc", "wiring", "skeletons"],
+                trusted=["release/acquire fragment of C11 in view-based operational form (exact for single-writer locations)", "compiler and hardware respect it",
+                         "user code accesses only the granted window"]),
+    "C10": dict(module="MRB.Props.C10", level="proof", profiles=[], engines=["conc"], gen_items=["concAcc", "skeletons", "loops"],
+                trusted=["OS scheduling and real time are not modelled"]),
     "C04": dict(module="MRB.Props.C04", level="proof", profiles=[prof("order", 500)],
                 gen_items=["advanceLocal", "advance", "check", "prodAvail", "workAvail", "consAvail", "wiring", "skeletons"], trusted=SEQ_TRUST),
     "C05": dict(module="MRB.Props.C05", level="proof", profiles=[prof("avail", 500)],
@@ -23,7 +31,7 @@ PROPS = {
                 gen_items=["workReset", "consReset", "check", "skeletons"], trusted=SEQ_TRUST),
     "C12": dict(module="MRB.Props.C12", level="proof", profiles=[prof("detached", 500)],
                 gen_items=["detSetIndex", "detReset", "detAdvance", "detGoBack", "detSync", "adetAdvance", "adetGoBack", "adetSync", "skeletons"], trusted=SEQ_TRUST),
-    "C07": dict(module="MRB.Props.C07", level="proof", profiles=[prof("drops", 500)],
+    "C07": dict(module="MRB.Props.C07", level="proof", profiles=[prof("drops", 500)], engines=["conc"],
                 gen_items=["skeletons", "concAcc", "localAcc"], trusted=SEQ_TRUST + ["allocator outside the model"]),
     "C08": dict(module="MRB.Props.C08", level="proof", profiles=[prof("own", 600)], also_tags=[],
                 gen_items=["storeKinds", "pins"], trusted=SEQ_TRUST + ["live values are never all-zero bytes (property assumption)"]),
